@@ -21,7 +21,8 @@ import (
 type misKnobs struct {
 	EntityIDSet  bool   `json:"entity_id_set"`
 	CustomAud    bool   `json:"custom_audience_validator"`
-	ReceivedAt   string `json:"received_at"` // "acs" | "acs-query"
+	ReceivedAt   string `json:"received_at"` // "acs" | "acs-query" | "relative" (path-only request URL, as behind a real net/http server)
+	AllowIDP     bool   `json:"allow_idp_initiated"`
 	MaxIssueMs   int64  `json:"MaxIssueDelay_ms"`
 	MaxClockSkew int64  `json:"MaxClockSkew_ms"`
 }
@@ -83,7 +84,7 @@ func variant(g *Rng, correct string, ws [4]int) (string, string) {
 }
 
 func genMisroute(g *Rng, tier string) *Plan {
-	k := misKnobs{EntityIDSet: g.Bool(0.5), CustomAud: g.Bool(0.15), ReceivedAt: Pick(g, "acs", "acs", "acs-query"),
+	k := misKnobs{EntityIDSet: g.Bool(0.5), CustomAud: g.Bool(0.15), ReceivedAt: Pick(g, "acs", "acs", "acs-query", "relative"), AllowIDP: g.Bool(0.2),
 		MaxIssueMs: Pick(g, int64(7000), 90_000), MaxClockSkew: Pick(g, int64(1000), 180_000)}
 	p := &Plan{Knobs: mustJSON(k)}
 	myAud := misMetadata
@@ -121,15 +122,18 @@ func genMisroute(g *Rng, tier string) *Plan {
 		}
 		// Destination
 		recvAt := misACS
-		if k.ReceivedAt == "acs-query" {
+		switch k.ReceivedAt {
+		case "acs-query":
 			recvAt = misACS + "?tenant=1"
+		case "relative":
+			recvAt = "/saml/acs"
 		}
 		switch c := pw(10, 3, 2, 2); c {
 		case 0:
 			spec.Destination = Pick(g, misACS, recvAt)
 			st.Labels["destination"] = "correct"
 		case 1:
-			spec.Destination = nearMiss(g, misACS)
+			spec.Destination = Pick(g, nearMiss(g, misACS), nearMiss(g, misACS), "https://other-sp.example.net/saml/acs", "http://sp.example.com:8080/saml/acs")
 			st.Labels["destination"] = "near"
 		case 2:
 			spec.Destination = "https://sp2.example.com/saml/acs"
@@ -233,9 +237,13 @@ func execMisroute(t *testing.T, p *Plan) *Result {
 		}
 	}
 	recvAt := mustURL(misACS)
-	if k.ReceivedAt == "acs-query" {
+	switch k.ReceivedAt {
+	case "acs-query":
 		recvAt = mustURL(misACS + "?tenant=1")
+	case "relative":
+		recvAt = mustURL("/saml/acs")
 	}
+	spv.AllowIDPInitiated = k.AllowIDP
 	begin := time.Now()
 	for si, raw := range p.Steps {
 		st := decode[misStep](raw)
